@@ -387,7 +387,10 @@ def run(ctx):  # noqa: C901, PLR0912, PLR0915
             # result lists: fields of the TransactionResult (proc.*), lists this function returns, lists that stand for a
             # TransactionResult field in a loop over (updates, proc.<field>) pairs
             returned = {unparse(r.value) for r in walk_no_nested(fi.node) if isinstance(r, ast.Return) and r.value is not None}
-            if not (tgt.startswith('proc.') or tgt in returned or tgt == 'dest_list'):
+            gq = cfg_of(fi)
+            hq = gq.holder(c)
+            origin = gq.origin_text(hq, c.func.value) if hq is not None else tgt   # a local alias of proc.<field>
+            if not (tgt.startswith('proc.') or origin.startswith('proc.') or tgt in returned or tgt == 'dest_list'):
                 continue
             n_app += 1
             arg = c.args[0]
